@@ -38,6 +38,29 @@ Theorem C08_sem_engine : forall tt structs protos msgs m dict,
 Proof. exact py_sem_engine. Qed.
 Print Assumptions C08_sem_engine.
 
+(* ... and with the constructor: its behaviour-deciding lines (the def line and the two lines that mention <<<STATE_0>>>, selected from
+   the shipped file as translator/pytmpl.py selects them: Model/PyRender.py_init16) go through the engine's filterInitialState, which is
+   now part of the template grammar of C16 (InitLine).  Everything gen_py consists of is text the engine writes. *)
+Theorem C08_sem_engine_full : forall tt structs protos msgs m dict,
+  tt_model tt structs protos msgs = Some m -> dict_ok dict = true -> wf_table (table_of tt) = true -> forall evs gv,
+  exists L0 L prog,
+    engine16 m dict py_init16 = Some (concat_lines (map tab4 L0))
+    /\ engine16 m dict py_proc16 = Some (concat_lines (map tab4 L))
+    /\ reads_all "X" (L0 ++ L) (gen_py (table_of tt)) = true
+    /\ parse_indent (gen_py (table_of tt)) = Some prog
+    /\ run_py prog evs gv = Some (table_interp (table_of tt) evs gv).
+Proof. exact py_sem_engine_full. Qed.
+Print Assumptions C08_sem_engine_full.
+
+Theorem C08_init_reads : forall (t : table) structs protos msgs,
+  reads_all "X" (flat_map (ref_item16 (elements_of t structs protos msgs)) py_init16) (gen_init t) = true.
+Proof. exact py_init_reads. Qed.
+Print Assumptions C08_init_reads.
+
+Example C08_init_is_shipped : py_init16_opt = Some py_init16 /\ List.length py_init16 = 3.
+Proof. split; vm_compute; reflexivity. Qed.
+Print Assumptions C08_init_is_shipped.
+
 (* the reading alone, at the level of the reference expansion: every table (well-formed or not), every interface *)
 Theorem C08_ref_reads : forall (t : table) structs protos msgs,
   reads_all "X" (flat_map (ref_item16 (elements_of t structs protos msgs)) py_proc16) (gen_proc t) = true.
